@@ -39,7 +39,8 @@ T = {
             "For every configuration (reduced shapes) Hessian-vector products by reverse-over-reverse, forward-over-reverse and "
             "reverse-over-forward are computed for every basis vector; they must agree, be symmetric, and match a trust-tested numerical "
             "derivative of autograd's own gradient; the zero-residual Gauss-Newton Hessian must equal J^T J; third derivatives along a fixed "
-            "direction by the four nestings RRR/FFF/RFR/FRF must agree and match the numerical derivative of the second.",
+            "direction by the four nestings RRR/FFF/RFR/FRF must agree and match the numerical derivative of the second; complex results of real operands "
+            "(FFT family) are differentiated through their realification [Re, Im].",
             "Finite point alphabet, reduced shapes.", "3/C07"),
     "C08": ("exploration", "exhaustive enumeration of nested-operator terms (depth<=3) on the real code vs symbolic reference",
             "All nested differentiation terms up to depth 3 - every mode assignment, operator spelling, closure subset per level (including "
